@@ -31,6 +31,13 @@ pub fn build(shape: &Value) -> Result<Box<dyn Tokenize>, String> {
         }
         "char" => {
             let cfg = CharTokenizerConfig { use_graphemes: g, unk_token: "<unk>".to_string() };
+            if let Some(voc) = shape.get("vocab").and_then(|v| v.as_array()) {
+                // caller-supplied vocabulary (code points)
+                let tokens: Vec<char> = voc.iter().filter_map(|c| c.as_u64().and_then(|c| char::from_u32(c as u32))).collect();
+                return Ok(Box::new(
+                    CharTokenizer::new_vocab_tokenizer(tokens, "<unk>".to_string(), special, cfg).map_err(|e| e.to_string())?,
+                ));
+            }
             Ok(Box::new(CharTokenizer::new(cfg, special).map_err(|e| e.to_string())?))
         }
         _ => {
